@@ -706,8 +706,9 @@ QUICK_CONFIGS = (
     _cfg(2, 1, (T_, F, F), (F, T_, F), 1, F, (), 0, {"hdr", "hdr_end", "end", "rst"}, {"hdr", "hdr_end", "rst"}),  # resets
     _cfg(3, 1, (F, T_, F), (F, F, F), 1, T_, {1, 3}, 1, {"hdr", "hdr_end", "end"}, {"hdr_end"}),                  # late preface
 )
-THOROUGH_CONFIGS = QUICK_CONFIGS + (
-    _cfg(3, 1, (T_, F, F), (F, T_, F), 1, F, (), 0, {"hdr", "hdr_end", "end", "rst"}, {"hdr", "hdr_end", "rst"}),
+# thorough tier, exhaustive without dump (statistics + model-level check): 3 streams, bodies, resets from both sides,
+# a raised limit -- 513 191 states / 996 134 transitions, depth 15 (measured)
+THOROUGH_CONFIGS = (
     _cfg(3, 1, (F, T_, F), (F, F, T_), 1, F, {2}, 1, {"hdr", "hdr_end", "data_end", "rst"}, {"hdr", "hdr_end", "data_end", "rst"}),
 )
 SIM_CONFIGS = (
@@ -736,7 +737,7 @@ class Check(core.PropertyCheck):
                           "reset_downstream", "proxy_error_response", "request_trailers", "response_trailers",
                           "flow_request", "flow_request_streamed", "flow_response", "flow_response_streamed",
                           "flow_control", "in_flight_close", "server_closed_with_queue")
-    REQUIRED_ACTIONS = ()
+    REQUIRED_ACTIONS = ("CHdr", "CBody", "CRst", "SResp", "Settings", "Finish")
     ASSUMPTIONS = (
         "the two hyper-h2 peers owned by the harness decode what the proxy sends; HPACK / frame parsing is theirs",
         "content is attributed to streams by markers the harness puts into every header block, data byte and trailer "
@@ -757,7 +758,7 @@ class Check(core.PropertyCheck):
         if ctx.quick:
             return [ctx.model_check(self.MODEL, _consts(QUICK_CONFIGS), dump=True, timeout=1200)]
         small = ctx.model_check(self.MODEL, _consts(QUICK_CONFIGS), dump=True, timeout=1200)
-        big = ctx.model_check(self.MODEL, _consts(THOROUGH_CONFIGS), dump=False, tag="_big", timeout=3000)
+        big = ctx.model_check(self.MODEL, _consts(THOROUGH_CONFIGS), dump=False, tag="_big", timeout=6000, workers=4)
         return [small, big]
 
     @staticmethod
@@ -800,12 +801,12 @@ class Check(core.PropertyCheck):
         for b in behs:
             yield self._scenario(b, rng, "model")
         if not ctx.quick:
-            behs, _r = ctx.simulate(self.MODEL, _consts(SIM_CONFIGS), num=3000, depth=40)
+            behs, _r = ctx.simulate(self.MODEL, _consts(SIM_CONFIGS), num=2000, depth=40, timeout=3000)
             for b in behs:
                 yield self._scenario(b, rng, "simulate")
         # beyond the model: several frames per delivery, in-flight frames, flow-control windows, up to 12 streams,
         # more than 10 streams before the first SETTINGS (the provisional limit of the code)
-        for k in range(350 if ctx.quick else 6000):
+        for k in range(350 if ctx.quick else 4000):
             fc = rng.random() < 0.3
             yield core.Scenario({"ops": None, "seed": rng.randrange(1 << 30), "n": rng.randint(2, 8), "steps": rng.randint(10, 70),
                                  "limit0": rng.choice([0, 1, 1, 2, 2, 3]), "late": rng.random() < 0.25,
